@@ -616,6 +616,26 @@ func TestC27(t *testing.T) {
 			Scripts:  scripts,
 			Logger:   logger,
 		}
+		// a quarter of the cases: the handler list in effect was installed by a reload. The agent starts
+		// with a stale handler (it matches every event and leaves a mark) and is then reloaded to the list
+		// of this case - half of the time to an EMPTY list. Only the reloaded list may run.
+		reloaded := rng.Intn(4) == 0
+		stale := filepath.Join(dir, "stale-handler-ran")
+		if reloaded {
+			_ = os.MkdirAll(dir, 0o755)
+			if rng.Intn(2) == 0 {
+				for _, h := range hs {
+					os.RemoveAll(h.Dir)
+				}
+				hs, scripts = nil, []agent.EventScript{}
+			}
+			handler.Scripts = agent.ParseEventScript(": > '" + stale + "'")
+			handler.UpdateScripts(scripts)
+			r.Count("cases_with_reloaded_handler_list", 1)
+			if len(scripts) == 0 {
+				r.Count("cases_reloaded_to_an_empty_handler_list", 1)
+			}
+		}
 
 		// ---- the event
 		var ev serf.Event
@@ -707,6 +727,12 @@ func TestC27(t *testing.T) {
 			return
 		}
 
+		if reloaded {
+			if _, err := os.Stat(stale); err == nil {
+				r.Violation("reload-ignored", ci, fmt.Sprintf("event handlers were reloaded to %d handler(s) before the %s event, but the handler of the old list still ran", len(scripts), evType),
+					map[string]any{"event": evType, "event_name": evName, "new_handlers": len(scripts)})
+			}
+		}
 		witness := func(h *c27Handler) map[string]any {
 			w := map[string]any{"spec": h.Spec, "event": evType, "event_name": evName, "self_name": self.Name, "self_tags": fmt.Sprintf("%q", self.Tags),
 				"ltime": fmt.Sprint(ltime), "payload": c27Q(string(payload)), "out_len": h.OutLen, "exit": h.Exit}
